@@ -16,6 +16,12 @@ import Asn1Model.Cache
 import Asn1Model.X696
 import Asn1Model.X691
 import Asn1Model.Extension
+import Asn1Model.Json
+import Asn1Model.Jer
+import Asn1Model.SpecDictSx
+import Asn1Model.Xml
+import Asn1Model.Xer
+import Asn1Model.CCursorProto
 import Asn1Model.X690Value
 import Asn1Model.X690
 import Asn1Model.X690Strict
@@ -507,5 +513,108 @@ def opC07 (args : List Sx) : String :=
       | _ => "bad-codec"
     | _, _, _ => "bad-args"
   | _ => "bad-args"
+
+/-- `jenc <ty> <val> <indent|none>`: the octets of the JER document, `ok <hex>` / `err <class>` -/
+def opJEnc (args : List Sx) : String :=
+  match args with
+  | [t, v, ind] =>
+    match sxTy? t, sxVal? v, (match ind with | .atom "none" => some none | x => (sxNat? x).map some) with
+    | some ty, some val, some indent =>
+      match Jer.encode ty val indent with
+      | .ok bs => "ok " ++ (if bs.isEmpty then "-" else toHex bs)
+      | .error e => "err " ++ uperErr e
+    | none, _, _ => "bad-type"
+    | _, none, _ => "bad-value"
+    | _, _, none => "bad-indent"
+  | _ => "bad-args"
+
+/-- `jdec <ty> <hex>`: `ok <val>` / `err <class>` / `malformed` (not UTF-8 or not an RFC 8259 document) -/
+def opJDec (args : List Sx) : String :=
+  match args with
+  | [t, .atom h] =>
+    match sxTy? t, fromHex (if h == "-" then "" else h) with
+    | some ty, some bs =>
+      if !Jer.isJson bs then "malformed" else
+      match Jer.decode ty bs with
+      | .ok v => "ok " ++ valToStr v
+      | .error e => "err " ++ uperErr e
+    | none, _ => "bad-type"
+    | _, none => "bad-hex"
+  | _ => "bad-args"
+
+/-- `jparse <hex>`: the independent RFC 8259 reader on the octets: `ok` / `malformed` -/
+def opJParse (args : List Sx) : String :=
+  match args with
+  | [.atom h] =>
+    match fromHex (if h == "-" then "" else h) with
+    | some bs => if Jer.isJson bs then "ok" else "malformed"
+    | none => "bad-hex"
+  | _ => "bad-args"
+
+/-- `prep <numeric:T|F> <spec>`: the parser dictionary after the in-place rewrite of
+`Compiler.pre_process` (model `Asn1.SpecDict.Preprocess.run`); format in `SpecDictSx.lean` -/
+def opPrep (args : List Sx) : String := Asn1.SpecDict.Sx.opPrep args
+
+/-- `prepseq (<T|F>*) <spec>`: the dictionary after a sequence of rewrites -/
+def opPrepSeq (args : List Sx) : String := Asn1.SpecDict.Sx.opPrepSeq args
+
+/-! ### XER -/
+
+def hexArg? (h : String) : Option Bytes := fromHex (if h == "-" then "" else h)
+
+def hexOut (bs : Bytes) : String := if bs.isEmpty then "-" else toHex bs
+
+def xencAnswer (t v : Sx) (ind name : String) : String :=
+  match sxTy? t, sxVal? v, (if ind == "none" then some none else ind.toNat?.map some) with
+  | some ty, some val, some indent =>
+    match Xer.encode ty name val indent with
+    | .ok bs => "ok " ++ hexOut bs
+    | .error e => "err " ++ uperErr e
+  | none, _, _ => "bad-type"
+  | _, none, _ => "bad-value"
+  | _, _, none => "bad-indent"
+
+/-- `xenc <ty> <val> <indent|none> [<type name>]`: the XER document (type name `A` when not given):
+`ok <hex>` / `err <class>` -/
+def opXenc (args : List Sx) : String :=
+  match args with
+  | [t, v, .atom ind] => xencAnswer t v ind "A"
+  | [t, v, .atom ind, .atom name] => xencAnswer t v ind name
+  | _ => "bad-args"
+
+/-- `xdec <ty> <hex>`: `ok <val>` / `err <class>` / `malformed` / `unsupported` -/
+def opXdec (args : List Sx) : String :=
+  match args with
+  | [t, .atom h] =>
+    match sxTy? t, hexArg? h with
+    | some ty, some bs =>
+      match Xer.parseDoc bs with
+      | .error .malformed => "malformed"
+      | .error .unsupported => "unsupported"
+      | .ok x =>
+        match Xer.ofXml ty x with
+        | .ok v => "ok " ++ valToStr v
+        | .error e => "err " ++ uperErr e
+    | none, _ => "bad-type"
+    | _, none => "bad-hex"
+  | _ => "bad-args"
+
+/-- `xparse <hex>`: is the document well-formed XML (inside the supported subset):
+`ok` / `malformed` / `unsupported` -/
+def opXparse (args : List Sx) : String :=
+  match args with
+  | [.atom h] =>
+    match hexArg? h with
+    | some bs =>
+      match Xer.parseDoc bs with
+      | .ok _ => "ok"
+      | .error .malformed => "malformed"
+      | .error .unsupported => "unsupported"
+    | none => "bad-hex"
+  | _ => "bad-args"
+
+
+/-- `cops <sequence>`: run a sequence of C helper library calls on the model (`Asn1Model/CCursorProto.lean`) -/
+def opCops (args : List Sx) : String := Asn1.CProto.opCops args
 
 end Asn1.Proto
